@@ -855,7 +855,7 @@ def _balance_chunksizes(chunks: tuple[int, ...]) -> tuple[int, ...]:
 
     new_chunks = [
         _get_chunks(sum(chunks), chunk_len)
-        for chunk_len in range(median_len - eps, median_len + eps + 1)
+        for chunk_len in range(max(median_len - eps, 1), median_len + eps + 1)
     ]
     possible_chunks = [c for c in new_chunks if len(c) == n_chunks]
     if not len(possible_chunks):
